@@ -32,6 +32,7 @@ class World:
         self.tasks = {}  # task name -> task script (dict), see request_spec()
         self.request_log = []  # one dict per logical request
         self.wire_log = []  # one dict per wire request
+        self.wire_cancelled = []  # wire requests that were cancelled before the response arrived
         self.param_calls = []  # (task, client_index, ordinal)
         self.created_clients = []
         self.faults = {}
@@ -66,7 +67,13 @@ class SimEs(RequestContextHolder):
             es_client_id=self.client_id,
             proc=kernel.current_proc.get(),
         )
-        await asyncio.sleep(service_time)
+        try:
+            await asyncio.sleep(service_time)
+        except asyncio.CancelledError:
+            # torn down while on the wire (a cancelled stream of a composite): sent, never answered
+            entry.update(t_end=w.clock.now, pc_end=w.clock.perf_counter(), cancelled=True)
+            w.wire_cancelled.append(entry)
+            raise
         self.on_request_end()
         entry.update(t_end=w.clock.now, pc_end=w.clock.perf_counter())
         w.wire_log.append(entry)
